@@ -22,19 +22,21 @@ func init() {
 	register(Source{Name: "grammar", Weight: 6, Next: splicegen.Grammar, Stats: splicegen.GrammarStats})
 	// generators of the other groups (histories with their own reference models; here only executed and compared)
 	register(Source{Name: "storgen-containers", Weight: 1, Next: func(r *rand.Rand) (prog.History, bool) {
-		return storgen.GenContHistory(storgen.FromRand(r), storgen.ContGenConfig{MaxExecs: 8}).History(), true
+		return storgen.GenContHistory(storgen.FromRand(r), storgen.ContGenConfig{MaxExecs: 5}).History(), true
 	}})
 	register(Source{Name: "storgen-map", Weight: 1, Next: func(r *rand.Rand) (prog.History, bool) {
 		return storgen.GenMapHistory(storgen.FromRand(r), storgen.MapGenConfig{MaxExecs: 8}).History(), true
 	}})
 	register(Source{Name: "storgen-nested", Weight: 1, Next: func(r *rand.Rand) (prog.History, bool) {
-		return storgen.GenNestHistory(storgen.FromRand(r), storgen.NestGenConfig{MaxExecs: 8}).History(), true
+		return storgen.GenNestHistory(storgen.FromRand(r), storgen.NestGenConfig{MaxExecs: 5}).History(), true
 	}})
 	register(Source{Name: "capgen-capabilities", Weight: 1, Next: func(r *rand.Rand) (prog.History, bool) {
 		return capgen.GenCapHistory(capgen.Rand{R: r}, capgen.CapGenOptions{MaxActions: 12}).Prog(), true
 	}})
 	register(Source{Name: "capgen-contracts", Weight: 1, Next: func(r *rand.Rand) (prog.History, bool) {
-		return capgen.GenContractHistory(capgen.Rand{R: r}, capgen.ContractGenOptions{MaxActions: 10}).Prog(), true
+		// FK1/FK2 (group caps, C26): borrow/remove of a contract added earlier in the same transaction; not generated while listed as known
+		avoid := map[string]bool{"FK1": anyKnown("FK1"), "FK2": anyKnown("FK2")}
+		return capgen.GenContractHistory(capgen.Rand{R: r}, capgen.ContractGenOptions{MaxActions: 10, Avoid: avoid}).Prog(), true
 	}})
 	register(Source{Name: "resgen", Weight: 1, Next: func(r *rand.Rand) (prog.History, bool) {
 		return resgen.Generate(resgen.FromRand(r), resgen.DefaultOptions()).Prog, true
